@@ -1,10 +1,11 @@
 #!/usr/bin/env python3
-"""Self-test: apply a one-line mutation to /repo, run harnesses, revert.
+"""Self-test: apply a one-line mutation to the scratch worktree /tmp/selfmut (git -C /repo worktree add --detach /tmp/selfmut HEAD), run harnesses against it (VF_REPO), revert.
 usage: selfmut.py <file> <old> <new> <harness...>   (old must occur; first occurrence unless @N suffix)"""
 import subprocess, sys, os
 f, old, new = sys.argv[1:4]
 hs = sys.argv[4:]
-path = os.path.join("/repo", f)
+WT = "/tmp/selfmut"
+path = os.path.join(WT, f)
 s = open(path).read()
 n = 1
 if old.startswith("@"):
@@ -15,9 +16,10 @@ for _ in range(n):
 s2 = s[:idx] + new + s[idx + len(old):]
 open(path, "w").write(s2)
 try:
-    r = subprocess.run(["/verif/vf", "run"] + hs + ["--replay", "--nowitness"], capture_output=True, text=True)
+    r = subprocess.run(["/verif/vf", "run"] + hs + ["--replay", "--nowitness"], capture_output=True, text=True,
+                       env=dict(os.environ, VF_REPO=WT))
     out = r.stdout + r.stderr
     lines = [l for l in out.splitlines() if "FAILED" in l or "native replay" in l or "verdict" in l or "BUILD" in l]
     print("\n".join(l[:220] for l in lines[:12]) or "NOT DETECTED")
 finally:
-    subprocess.run(["git", "-C", "/repo", "checkout", "--", "."])
+    subprocess.run(["git", "-C", WT, "checkout", "--", "."])
